@@ -147,6 +147,17 @@ impl State {
                     None => "X".into(),
                 }
             }
+            "CLONEFROM" => {
+                let key = self.kind.clone() + ":" + &self.elem;
+                match self.slots.get(t[1]) {
+                    Some((k, d)) if *k == key => {
+                        self.data = d.clone();
+                        "T".into()
+                    }
+                    Some(_) => "F".into(),
+                    None => "X".into(),
+                }
+            }
             "DROP" => "OK".into(),
             "EQ" => match self.slots.get(t[1]) {
                 Some((k, d)) => {
@@ -550,6 +561,36 @@ pub fn exec_fn(is_impl: bool, t: &[&str]) -> String {
                 }
                 for &x in vals { if codes[x as usize].1 <= shift as u32 { out.push(x.to_string()); } }
                 out.join(",")
+            }
+        }
+        "dabig" => {
+            // dabig <s0> p1 p2 ...: a DArray over strictly increasing positions that may lie beyond 2^32 (the vector
+            // is never expanded bit by bit on the oracle side: the position list is the oracle)
+            let a = nums(&t[1..]);
+            let pos: Vec<usize> = a[1..].iter().map(|&x| x as usize).collect();
+            let n1 = pos.len();
+            let len = pos.last().map_or(0, |&l| l + 1);
+            if is_impl {
+                use qwt::{AccessBin, DArray, SelectBin};
+                macro_rules! run { ($s0:literal) => {{
+                    let da: DArray<$s0> = pos.iter().copied().collect();
+                    let mut out = vec![format!("V{}", da.len()), format!("V{}", da.count_ones()), format!("V{}", da.count_zeros())];
+                    out.push((0..=n1 + 1).map(|k| so(da.select1(k))).collect::<Vec<_>>().join(","));
+                    out.push((0..n1).map(|k| format!("V{}", unsafe { da.select1_unchecked(k) })).collect::<Vec<_>>().join(","));
+                    out.push(pos.iter().map(|&p| sb(da.get(p))).collect::<Vec<_>>().join(","));
+                    out.push(sb(da.get(len)));
+                    out.push(da.ones().take(n1 + 1).map(|x| x.to_string()).collect::<Vec<_>>().join(","));
+                    out.join(";")
+                }}; }
+                guard(|| if a[0] == 1 { run!(true) } else { run!(false) })
+            } else {
+                let mut out = vec![format!("V{}", len), format!("V{}", n1), format!("V{}", len - n1)];
+                out.push((0..=n1 + 1).map(|k| if k < n1 { format!("S{}", pos[k]) } else { "N".into() }).collect::<Vec<_>>().join(","));
+                out.push(pos.iter().map(|p| format!("V{}", p)).collect::<Vec<_>>().join(","));
+                out.push(pos.iter().map(|_| "S1".to_string()).collect::<Vec<_>>().join(","));
+                out.push("N".into());
+                out.push(pos.iter().map(|x| x.to_string()).collect::<Vec<_>>().join(","));
+                out.join(";")
             }
         }
         "remap" => {
